@@ -438,6 +438,58 @@ func minIntScenario() *mc.Scenario {
 	}}
 }
 
+// reuse: the same CallCtx object is submitted to two MultiLines with different lane counts, then fresh
+// CallCtx objects with the same hash: every call must run on IndexOf(hash) of the executor it was given to.
+func reuseScenario(hash int) *mc.Scenario {
+	return &mc.Scenario{Name: fmt.Sprintf("mline/reused-CallCtx-on-2-and-3-lanes/hash=%d", hash), PB: [2]int{1, 2}, FB: [2]int{4, 6}, Main: func(w *mc.World) {
+		m2 := mline.NewMultiLine(pipe.WithSlotSize(2), pipe.WithQSize(8))
+		m3 := mline.NewMultiLine(pipe.WithSlotSize(3), pipe.WithQSize(8))
+		m2.Run()
+		m3.Run()
+		type rec struct{ on, lane int }
+		var ran []rec
+		cur := 0
+		cc := mline.NewCallCtx(hash, func(c context.Context, lane int, req interface{}) (interface{}, error) {
+			w.Touch()
+			ran = append(ran, rec{cur, lane})
+			return lane, nil
+		}, nil)
+		submit := func(on int, m *mline.MultiLine, c *mline.CallCtx) {
+			w.Touch()
+			cur = on
+			if _, err := m.AsyncCall(vctx.New(), c); err != nil {
+				w.Failf("call refused: %v", err)
+			}
+		}
+		submit(2, m2, cc)
+		submit(3, m3, cc)
+		submit(2, m2, cc)
+		fresh := mline.NewCallCtx(hash, func(c context.Context, lane int, req interface{}) (interface{}, error) {
+			w.Touch()
+			ran = append(ran, rec{cur, lane})
+			return lane, nil
+		}, nil)
+		submit(3, m3, fresh)
+		m2.Stop()
+		m3.Stop()
+		_ = m2.WaitStop(vctx.New())
+		_ = m3.WaitStop(vctx.New())
+		w.Touch()
+		for _, r := range ran {
+			want := m2.IndexOf(hash)
+			if r.on == 3 {
+				want = m3.IndexOf(hash)
+			}
+			if r.lane != want {
+				w.Failf("a call with hash %d submitted to the %d-lane executor ran on lane %d, IndexOf says %d (ran: %v)", hash, r.on, r.lane, want, ran)
+			}
+		}
+		if len(ran) != 4 {
+			w.Failf("4 calls submitted, %d ran", len(ran))
+		}
+	}}
+}
+
 // warm: populate the runner's process-wide reflection cache so that every execution takes the same path
 func warm() *mc.Scenario {
 	return &mc.Scenario{Name: "warmup", Main: func(w *mc.World) {
@@ -462,6 +514,6 @@ func main() {
 	if r.Shard == "" && r.ReplayPath == "" {
 		seq.RunFamily(r, seq.Family{Name: "lane-index", Run: routing})
 	}
-	scs := append(scenarios(), minIntScenario())
+	scs := append(scenarios(), minIntScenario(), reuseScenario(2), reuseScenario(5), reuseScenario(-4))
 	mc.Main(r, scs)
 }
